@@ -335,6 +335,9 @@ func (s *SyncerClient) connect(cxt context.Context, typhaAddr discovery.Typha) e
 			return net.DialTimeout("tcp", addr, 10*time.Second)
 		}
 	}
+	if simDial != nil {
+		connFunc = simDial
+	}
 	if cxt.Err() == nil {
 		logCxt.Info("Connecting to Typha.")
 		s.connection, err = connFunc(typhaAddr.Addr)
